@@ -182,7 +182,7 @@ def _owner_of(parts):
     return None
 
 
-def install_loggers(api, current, stubs=(), choices=()):
+def install_loggers(api, current, stubs=(), choices=(), keep_real=False):
     """natively, the ghost event log is filled by wrappers around the real functions whose contracts
     declare `log_entry` (the function under replay itself is not wrapped)"""
     from pyvc import spec
@@ -231,7 +231,7 @@ def install_loggers(api, current, stubs=(), choices=()):
                     spec._GHOST["log"].append(call_spec(_c.log_entry, dict(ba.arguments)))
                 except Exception as e:  # noqa
                     spec._GHOST["log"].append(("log-error", repr(e)))
-            if _c.proof == "table":
+            if _c.proof == "table" and not keep_real:
                 # an ASSUMED summary: the callee is replaced by the value the counterexample chose
                 if _c.native_effect is not None:
                     ba = inspect.signature(_orig).bind(*a, **kw)
